@@ -145,6 +145,7 @@ class Ctx:
         if queue_dfs:
             jopts.append("-Dtlc2.tool.queue.IStateQueue=StateDeque")
         env["JAVA_TOOL_OPTIONS"] = " ".join(jopts)
+        env["JDK_JAVA_OPTIONS"] = "-Xss64m"       # the JVM main thread (TLC computes initial states there)
         r = TlcResult()
         r.cmd = " ".join(cmd[:1] + cmd[3:])
         t = time.time()
